@@ -11,6 +11,31 @@ pub enum Meta {
     None,
     /// C04: words and effective width; `exact` = TooNarrow is predictable too
     Para { words: Vec<String>, eff_width: usize, prefix: String, exact: bool },
+    /// generic: a role within a relational group, strings and numbers for the checker
+    G { role: &'static str, strs: Vec<String>, nums: Vec<i64> },
+}
+impl Meta {
+    pub fn role(&self) -> &'static str {
+        match self {
+            Meta::G { role, .. } => role,
+            _ => "",
+        }
+    }
+    pub fn strs(&self) -> &[String] {
+        match self {
+            Meta::G { strs, .. } => strs,
+            _ => &[],
+        }
+    }
+    pub fn nums(&self) -> &[i64] {
+        match self {
+            Meta::G { nums, .. } => nums,
+            _ => &[],
+        }
+    }
+}
+pub fn g(role: &'static str) -> Meta {
+    Meta::G { role, strs: vec![], nums: vec![] }
 }
 
 #[derive(Clone, Debug)]
@@ -47,9 +72,9 @@ pub fn case_counter() -> usize {
     0
 }
 
-fn mk_case(id: usize, route: u32, cfg: Cfg, width: usize, html: Vec<u8>, model_route: Option<u64>, meta: Meta, slice: &'static str) -> Case {
+pub fn mk_case(id: usize, route: u32, cfg: Cfg, width: usize, html: Vec<u8>, model_route: Option<u64>, meta: Meta, slice: &'static str) -> Case {
     Case {
-        spec: Spec { id, route, cfg, width, widths: vec![], html, want_dom: model_route.is_some() },
+        spec: Spec { id, route, cfg, width, widths: vec![], html, want_dom: true },
         group: id,
         model_route,
         meta,
@@ -57,14 +82,14 @@ fn mk_case(id: usize, route: u32, cfg: Cfg, width: usize, html: Vec<u8>, model_r
     }
 }
 
-fn ident(o: &Outcome) -> Outcome {
+pub fn ident(o: &Outcome) -> Outcome {
     o.clone()
 }
 
 // ======================================================================
 // C04  greedy wrapping
 // ======================================================================
-fn cw(c: char) -> usize {
+pub fn cw(c: char) -> usize {
     unicode_width::UnicodeWidthChar::width(c).unwrap_or(0)
 }
 
@@ -300,7 +325,7 @@ fn gen_c04(tier: &str, rng: &mut Rng) -> Vec<Case> {
     cases
 }
 
-fn out_lines(o: &Outcome) -> Option<Vec<String>> {
+pub fn out_lines(o: &Outcome) -> Option<Vec<String>> {
     o.text().map(|t| {
         let mut v: Vec<String> = t.split('\n').map(|x| x.to_string()).collect();
         if v.last().map(|x| x.is_empty()).unwrap_or(false) {
@@ -375,7 +400,7 @@ fn nontrivial_c04(_c: &Case, r: &RunResult) -> bool {
 pub fn prop_def(id: &str) -> Option<PropDef> {
     match id {
         "C04" => Some(PropDef { id: "C04", generate: gen_c04, check: check_c04, nontrivial: nontrivial_c04, project: ident, deadline_ms: 20000 }),
-        _ => None,
+        other => crate::props2::prop_def2(other),
     }
 }
 
@@ -549,7 +574,18 @@ pub fn run_property(prop: &str, tier: &str, seed: u64, outdir: &str, driver: &st
     let mut exit = 0;
     // smallest new violation first
     new_violations.sort_by_key(|v| cases[v.case_idx].spec.html.len());
-    for (k, v) in new_violations.iter().take(5).enumerate() {
+    // one replay per distinct class of violation (clause + detail prefix), smallest first
+    let mut vclasses: BTreeMap<String, usize> = BTreeMap::new();
+    let mut picked: Vec<&Violation> = Vec::new();
+    for v in new_violations.iter() {
+        let sig = format!("{} | {}", v.clause, v.detail.chars().take(70).collect::<String>());
+        let e = vclasses.entry(sig).or_insert(0);
+        if *e == 0 && picked.len() < 12 {
+            picked.push(v);
+        }
+        *e += 1;
+    }
+    for (k, v) in picked.iter().enumerate() {
         let c = &cases[v.case_idx];
         let r = results[v.case_idx].as_ref().unwrap();
         let path = format!("{}/{}-{}-{}.json", replay_dir, prop, seed, k);
@@ -649,6 +685,7 @@ pub fn run_property(prop: &str, tier: &str, seed: u64, outdir: &str, driver: &st
         ("out_of_model_domain", J::I(out_of_domain as i64)),
         ("disagreements", J::I(disagreements.len() as i64)),
         ("checker_violations_new", J::I(new_violations.len() as i64)),
+        ("violation_classes", J::O(vclasses.iter().map(|(k, v)| (k.clone(), J::I(*v as i64))).collect())),
         ("known_findings_seen", J::O(known_seen.iter().map(|(k, v)| (k.clone(), J::I(*v as i64))).collect())),
         ("outcome_kinds", J::O(kinds.iter().map(|(k, v)| (k.clone(), J::I(*v as i64))).collect())),
         ("slices", J::O(slices.iter().map(|(k, v)| (k.clone(), J::I(*v as i64))).collect())),
